@@ -10,6 +10,7 @@ import time
 
 from common import CoqEvalError, c_bool, c_list, c_nat, c_str
 
+from golem.core.dag.graph_node import GraphNode
 from golem.core.dag.linked_graph import LinkedGraph
 from golem.core.optimisers.graph import OptGraph, OptNode
 
@@ -27,6 +28,115 @@ class SubLinkedGraph(LinkedGraph):
 CLASSES = {'OptGraph': OptGraph, 'LinkedGraph': LinkedGraph, 'SubOptGraph': SubOptGraph,
            'SubLinkedGraph': SubLinkedGraph}
 CLASS_NAMES = list(CLASSES)
+
+
+# ---- node classes: the stock node and user classes.  What counts as a node's name and parameters is what the
+# class PUBLICLY says: for the stock node the raw content (its own name / parameters properties are code under
+# test); for the user classes below the value their overriding property returns, which the driver knows from the
+# way it built the node (kept in node._truth, copied by deepcopy).
+class TunableNode(OptNode):
+    """hyper-parameters kept outside content and exposed through the overridden public `parameters` property"""
+
+    def __init__(self, content, nodes_from=None, hyperparams=None):
+        super().__init__(content, nodes_from)
+        self._hyperparams = dict(hyperparams or {})
+
+    @property
+    def parameters(self):
+        return {**(self.content.get('params') or {}), **self._hyperparams}
+
+    @parameters.setter
+    def parameters(self, new_parameters):
+        self._hyperparams.update(new_parameters)
+
+
+class NamedNode(OptNode):
+    """the public `name` comes from an own attribute; content['name'] is a decoy"""
+
+    def __init__(self, content, nodes_from=None, real_name=None):
+        super().__init__(content, nodes_from)
+        self._real_name = real_name
+
+    @property
+    def name(self):
+        return str(self._real_name) if self._real_name is not None else ''
+
+
+class ReprNode(OptNode):
+    """debugging __repr__ / __str__ that show the uid: must not matter for a LinkedGraphNode"""
+
+    def __str__(self):
+        return '<%s #%s>' % (self.content.get('name'), self.uid)
+
+    def __repr__(self):
+        return 'ReprNode(uid=%r)' % self.uid
+
+
+class GateNode(GraphNode):
+    """a user implementation of the abstract GraphNode interface: the label is the default description() =
+    __str__() ('n_' + kind, so that it reads like the stock label); __repr__ shows the uid"""
+
+    def __init__(self, kind, inputs=None):
+        super().__init__()
+        self.kind = kind
+        self._inputs = list(inputs or ())
+
+    @property
+    def nodes_from(self):
+        return self._inputs
+
+    @nodes_from.setter
+    def nodes_from(self, nodes):
+        self._inputs = list(nodes or ())
+
+    @property
+    def name(self):
+        return self.kind
+
+    def __str__(self):
+        return 'n_' + self.kind
+
+    def __repr__(self):
+        return 'GateNode(kind=%r, uid=%r, n_inputs=%d)' % (self.kind, self.uid, len(self._inputs))
+
+
+NODE_KINDS = ['stock', 'tunable', 'named', 'repr', 'gate']
+KIND_CHOICES = ['stock', 'stock', 'stock', 'tunable', 'tunable', 'named', 'repr', 'gate']
+
+
+def kind_ok(kind, name, params):
+    """a GateNode carries no parameters and needs a non-empty name"""
+    return kind != 'gate' or (not params and name is not None and str(name) != '')
+
+
+def make_node(kind, name, params):
+    nm = '' if name is None else str(name)
+    pr = str(params) if params else ''
+    if kind == 'stock' or not kind_ok(kind, name, params):
+        return OptNode(content_of(name, params))
+    if kind == 'tunable':
+        keys = list(params) if params else []
+        half = len(keys) // 2
+        content = {'name': name}
+        if params is not None:
+            content['params'] = {k: deepcopy(params[k]) for k in keys[:half]}
+        nd = TunableNode(content, hyperparams={k: deepcopy(params[k]) for k in keys[half:]})
+    elif kind == 'named':
+        c = content_of('decoy', params)
+        nd = NamedNode(c, real_name=name)
+    elif kind == 'repr':
+        nd = ReprNode(content_of(name, params))
+    else:
+        nd = GateNode(nm)
+    nd._truth = (nm, pr, name if isinstance(name, (bool, int, float)) else None, kind)
+    return nd
+
+
+def set_truth_content(nd, name, params):
+    """(re)label a node of any kind (used for nodes made by deepcopy of another node)"""
+    fresh = make_node(getattr(nd, '_truth', (0, 0, 0, 'stock'))[3], name, params)
+    fresh.uid = nd.uid
+    return fresh
 
 
 def cls_name(g):
@@ -134,22 +244,24 @@ for _p in BIG_PARAMS:
     BIG_TOKENS.append(_tok)
 
 
-def build_tree_node(t, protos=None):
+def build_tree_node(t, protos=None, nkind='stock'):
     """protos (a dict) given: every node is a deepcopy of one prototype node per label, so all nodes of the
     tree that carry the same label are distinct objects sharing one uid (deepcopy keeps uids)"""
     name, params = LABELS[t[0]]
-    kids = [build_tree_node(c, protos) for c in t[1]]
+    kids = [build_tree_node(c, protos, nkind) for c in t[1]]
     if protos is None:
-        return OptNode(content_of(name, params), nodes_from=kids)
+        nd = make_node(nkind, name, params)
+        nd.nodes_from = kids
+        return nd
     if t[0] not in protos:
-        protos[t[0]] = OptNode(content_of(name, params))
+        protos[t[0]] = make_node(nkind, name, params)
     nd = deepcopy(protos[t[0]])
     nd.nodes_from = kids
     return nd
 
 
-def build_tree(t, shared=False, cname='OptGraph'):
-    return CLASSES[cname](build_tree_node(t, {} if shared else None))
+def build_tree(t, shared=False, cname='OptGraph', nkind='stock'):
+    return CLASSES[cname](build_tree_node(t, {} if shared else None, nkind))
 
 
 def tree_coq(t):
@@ -242,10 +354,10 @@ def big_tree_pool(rng, families):
 _W = {}
 
 
-def _w_init(trees, shared, classes):
+def _w_init(trees, shared, classes, kinds):
     import logging
     logging.disable(logging.CRITICAL)
-    _W['graphs'] = [build_tree(t, sh, c) for t, sh, c in zip(trees, shared, classes)]
+    _W['graphs'] = [build_tree(t, sh, c, k) for t, sh, c, k in zip(trees, shared, classes, kinds)]
 
 
 def _w_rows(rng_):
@@ -254,7 +366,7 @@ def _w_rows(rng_):
     return [[j for j, h in enumerate(gs) if gs[i] == h] for i in range(lo, hi)]
 
 
-def eq_rows(trees, graphs, workers, shared, classes):
+def eq_rows(trees, graphs, workers, shared, classes, kinds):
     """row i = positions j with graphs[i] == graphs[j] (the real __eq__ on every ordered pair)"""
     n = len(trees)
     if workers <= 1 or n < 800:
@@ -263,7 +375,7 @@ def eq_rows(trees, graphs, workers, shared, classes):
     chunks = [(lo, min(n, lo + step)) for lo in range(0, n, step)]
     rows = []
     with concurrent.futures.ProcessPoolExecutor(max_workers=workers, initializer=_w_init,
-                                                initargs=(trees, shared, classes)) as ex:
+                                                initargs=(trees, shared, classes, kinds)) as ex:
         for part in ex.map(_w_rows, chunks):
             rows.extend(part)
     return rows
@@ -280,12 +392,13 @@ def tree_preamble(trees):
             % c_list([tree_coq(t) for t in trees], 'tree'))
 
 
-def run_tree_pool(ctx, group, trees, workers=1, canary=True, shared=None, classes=None):
+def run_tree_pool(ctx, group, trees, workers=1, canary=True, shared=None, classes=None, kinds=None):
     """shared: per pool entry, build the tree from deepcopies sharing uids; classes: per pool entry, the graph
     class holding it (the Coq side sees the tree only)"""
     shared = shared or [False] * len(trees)
     classes = classes or ['OptGraph'] * len(trees)
-    roots = [build_tree_node(t, {} if sh else None) for t, sh in zip(trees, shared)]
+    kinds = kinds or ['stock'] * len(trees)         # node class of the entry (see NODE_KINDS)
+    roots = [build_tree_node(t, {} if sh else None, k) for t, sh, k in zip(trees, shared, kinds)]
     graphs = [CLASSES[c](r) for r, c in zip(roots, classes)]
     for t, g in zip(trees, graphs):      # == and descriptive_id are total on trees
         try:
@@ -301,7 +414,7 @@ def run_tree_pool(ctx, group, trees, workers=1, canary=True, shared=None, classe
         if r.descriptive_id != s:
             ctx.disagree(group, {'kind': 'tree-pair', 't1': tree_json(t), 't2': tree_json(t)},
                          'the identifier of the root node differs from the identifier of the tree graph')
-    rows = eq_rows(trees, graphs, workers, shared, classes)
+    rows = eq_rows(trees, graphs, workers, shared, classes, kinds)
     by_id = {}
     for j, s in enumerate(ids):
         by_id.setdefault(s, []).append(j)
@@ -327,8 +440,8 @@ def run_tree_pool(ctx, group, trees, workers=1, canary=True, shared=None, classe
     g = ctx.group(group)
     canon_ids = [py_canon(t) for t in trees]
     for i, (t, (ag, ho)) in enumerate(zip(trees, res)):
-        ctx.count(group, key=('tree', t, shared[i], classes[i]), nontrivial=tree_size(t) >= 2, size=tree_size(t),
-                  shared_uids=shared[i], graph_class=classes[i])
+        ctx.count(group, key=('tree', t, shared[i], classes[i], kinds[i]), nontrivial=tree_size(t) >= 2,
+                  size=tree_size(t), shared_uids=shared[i], graph_class=classes[i], node_class=kinds[i])
         g['evaluations'] += n - 1          # the row holds n ordered pairs
         d = g['distribution'].setdefault('pairs', {})
         d['equal'] = d.get('equal', 0) + len(rows[i])
@@ -340,6 +453,7 @@ def run_tree_pool(ctx, group, trees, workers=1, canary=True, shared=None, classe
             j = bad[0] if bad else i
             case = {'kind': 'tree-pair', 't1': tree_json(t), 't2': tree_json(trees[j]),
                     'shared_uids1': shared[i], 'shared_uids2': shared[j], 'class1': classes[i], 'class2': classes[j],
+                    'nkind1': kinds[i], 'nkind2': kinds[j],
                     'observed_eq': j in rows[i], 'observed_id1': ids[i], 'observed_id2': ids[j]}
             if not ho:
                 ctx.violate(group, case, 'tree equality / identifier equality differs from label-preserving '
@@ -385,16 +499,17 @@ def content_of(name, params):
     return c
 
 
-def build(spec, order, how, dups=None, cname='OptGraph'):
+def build(spec, order, how, dups=None, cname='OptGraph', nkind='stock'):
     """builds a fresh graph from spec; order = listing order requested (permutation of the spec
     positions); how: 'nodes' (assign the nodes list), 'ctor' (OptGraph(list): add_node order),
     'roots' (OptGraph(list of root nodes)); dups = {j: i}: node j is made as deepcopy(node i), i.e. a distinct
     object with the same uid (content then set from the spec).  Returns (graph, nodes by spec position)"""
-    nodes = [OptNode(content_of(s[0], s[1])) for s in spec]
+    if not all(kind_ok(nkind, s[0], s[1]) for s in spec):
+        nkind = 'stock'
+    nodes = [make_node(nkind, s[0], s[1]) for s in spec]
     for j, i in (dups or {}).items():
         if j < len(nodes) and i < len(nodes):
-            nodes[j] = deepcopy(nodes[i])
-            nodes[j].content = content_of(spec[j][0], spec[j][1])
+            nodes[j] = set_truth_content(deepcopy(nodes[i]), spec[j][0], spec[j][1])
     for nd, s in zip(nodes, spec):
         nd.nodes_from = [nodes[p] for p in s[2]]
     listing = [nodes[i] for i in order]
@@ -421,17 +536,19 @@ def snapshot(g):
     pos = {id(n): i for i, n in enumerate(g.nodes)}
     # name and params are read from the raw content (not through the node's own name / parameters properties,
     # which are part of the code under test): the model's name is str(name) for every name that is not None
-    raw = [n.content.get('name') for n in g.nodes]
-    names = ['' if r is None else str(r) for r in raw]
+    truth = [getattr(n, '_truth', None) for n in g.nodes]
+    raw = [t[2] if t else n.content.get('name') for n, t in zip(g.nodes, truth)]
+    names = [t[0] if t else ('' if r is None else str(r)) for t, r in zip(truth, raw)]
     if any(nm == '' for nm in names):
         ren = {n.uid: n.uid for n in g.nodes}
     else:
         ren = {u: 'u%02d' % k for k, u in enumerate(sorted({n.uid for n in g.nodes}))}
     out = []
-    for n, nm, r in zip(g.nodes, names, raw):
-        pr = n.content.get('params')
+    for n, nm, r, t in zip(g.nodes, names, raw, truth):
+        pr = t[1] if t else n.content.get('params')
         out.append([ren[n.uid], nm, str(pr) if pr else '', [pos[id(p)] for p in n.nodes_from],
-                    r if isinstance(r, (bool, int, float)) else None])      # raw non-string name, for replays
+                    r if isinstance(r, (bool, int, float)) else None,       # raw non-string name, for replays
+                    t[3] if t else 'stock'])                                # node class
     return out
 
 
@@ -495,7 +612,7 @@ def variant(rng, spec, base_graph, base_nodes, hows=HOWS):
     spec2 = [[s[0], s[1], rng.sample(s[2], len(s[2]))] for s in spec]
     order = rng.sample(range(n), n)
     g, nodes = build(spec2, order, {'rebuild-nodes': 'nodes', 'rebuild-ctor': 'ctor'}.get(how, 'roots'),
-                     cname=rng.choice(CLASS_NAMES))
+                     cname=rng.choice(CLASS_NAMES), nkind=rng.choice(KIND_CHOICES))
     return g, nodes, how
 
 
@@ -579,12 +696,11 @@ def graph_from_snapshot(snap, cname='OptGraph'):
     nodes = []
     for e in snap:
         u, nm, pr, ps = e[:4]
-        content = {'name': nm if nm != '' else None}
+        name = nm if nm != '' else None
         if len(e) > 4 and e[4] is not None:
-            content['name'] = e[4]          # a non-string name (0, False, 0.0, ...)
-        if pr:
-            content['params'] = eval(pr, {'__builtins__': {}})   # repr of a literal dict (own replay files only)
-        nd = OptNode(content)
+            name = e[4]                     # a non-string name (0, False, 0.0, ...)
+        params = eval(pr, {'__builtins__': {}}) if pr else None   # repr of a literal dict (own replay files only)
+        nd = make_node(e[5] if len(e) > 5 else 'stock', name, params)
         nd.uid = u
         nodes.append(nd)
     for nd, e in zip(nodes, snap):
@@ -699,7 +815,7 @@ def run_dags(ctx, n_triples, n_large=0):
                     spec[j][0], spec[j][1] = spec[i][0], deepcopy(spec[i][1])
             flavour = 'shared-uid'
         g1, nodes1 = build(spec, list(range(len(spec))), rng.choice(['nodes', 'ctor', 'roots']), dups,
-                           cname=rng.choice(CLASS_NAMES))
+                           cname=rng.choice(CLASS_NAMES), nkind=rng.choice(KIND_CHOICES))
         g2, nodes2, how2 = variant(rng, spec, g1, nodes1, HOWS[1:4] if dups and rng.random() < 0.7 else HOWS)
         f12 = index_map(g1, nodes1, g2, nodes2)
         if rng.random() < 0.4:
@@ -714,7 +830,8 @@ def run_dags(ctx, n_triples, n_large=0):
                     spec3, how3 = ex, 'exchange-parent-lists'
             # the near-miss keeps the shared uids half of the time
             g3, nodes3 = build(spec3, rng.sample(range(len(spec3)), len(spec3)), 'nodes',
-                               dups if rng.random() < 0.5 else None, cname=rng.choice(CLASS_NAMES))
+                               dups if rng.random() < 0.5 else None, cname=rng.choice(CLASS_NAMES),
+                               nkind=rng.choice(KIND_CHOICES))
             f23 = []
             claim23 = False
         # fresh identities change a uid-derived label: then only deep copies are isomorphic presentations
@@ -753,7 +870,8 @@ def run_dags(ctx, n_triples, n_large=0):
                       nontrivial=(n >= 2 and case['g' + a] != case['g' + b]),
                       flavour=flavour, transformation=how, nodes=n, isomorphic_presentation=bool(isob),
                       observed_equal=e[a + b], sinks=('single' if single else 'any'), params=params_on,
-                      graph_classes='%s/%s' % (case['classes'][int(a) - 1], case['classes'][int(b) - 1]))
+                      graph_classes='%s/%s' % (case['classes'][int(a) - 1], case['classes'][int(b) - 1]),
+                      node_classes='%s/%s' % tuple((case['g' + x][0][5] if case['g' + x] else 'none') for x in (a, b)))
             if iso_claim and not isob:
                 ctx.error('dags', 'harness bug: claimed isomorphism rejected by iso_b: %r' % (case,))
         ctx.count('dags', key=(repr(case['g1']), repr(case['g3'])), nontrivial=n >= 2, flavour=flavour,
@@ -782,7 +900,9 @@ def run(ctx):
                 'one evaluation = one ordered pair '
                 '(real == called); '
                 'distinct non-trivial = distinct tree with >=2 nodes (row of the pair matrix).  (b) dags: triples '
-                '(every graph held by a random one of the 4 graph classes; 25% draw params from a list that includes the big '
+                '(every graph held by a random one of the 4 graph classes and built from a random one of 5 node classes '
+                '[stock; parameters / name overridden and stored elsewhere; uid in __repr__; a direct GraphNode '
+                'implementation]; 25% draw params from a list that includes the big '
                 'ones; 30 [thorough 120] triples are large graphs of 17-60 nodes whose near-miss exchanges the parent '
                 'lists of two equally labelled nodes; g1 [18%: some nodes are deepcopies of other nodes of the same graph = distinct objects with one uid], '
                 'presentation g2 of g1 [deepcopy / relisted / parents reordered / rebuilt with fresh uids], '
@@ -822,6 +942,14 @@ def run(ctx):
     run_tree_pool(ctx, 'trees-large', big, workers=1,
                   classes=[('LinkedGraph', 'OptGraph')[i % 2] for i in range(len(big))])
     ctx.set_exhaustive('trees-large', False)
+    # user node classes: params kept outside content behind an overridden `parameters`, `name` overridden, uid shown
+    # by __repr__/__str__, and a class implementing the abstract GraphNode interface directly
+    pt = all_trees(3, ['a', "a_{'k': 1}", "a_{'k': 2}"])
+    gt = all_trees(3, 'ab')
+    ents = [(t, k) for k in ('stock', 'tunable', 'named', 'repr') for t in pt] + [(t, k) for k in ('gate', 'repr') for t in gt]
+    run_tree_pool(ctx, 'trees-node-classes', [e[0] for e in ents], workers=1, kinds=[e[1] for e in ents],
+                  classes=[('OptGraph', 'LinkedGraph')[i % 2] for i in range(len(ents))])
+    ctx.set_exhaustive('trees-node-classes', True)
     # every small tree held by each of the graph classes (all ordered pairs: == in both directions across classes)
     base = all_trees(4, 'ab')
     run_tree_pool(ctx, 'trees-graph-classes', base * len(CLASS_NAMES), workers=ctx.pick(1, 6),
@@ -864,7 +992,8 @@ def replay(ctx, payload):
         trees = [tree_from_json(case['t1']), tree_from_json(case['t2'])]
         run_tree_pool(ctx, 'replay', trees, canary=False,
                       shared=[bool(case.get('shared_uids1')), bool(case.get('shared_uids2'))],
-                      classes=[case.get('class1', 'OptGraph'), case.get('class2', 'OptGraph')])
+                      classes=[case.get('class1', 'OptGraph'), case.get('class2', 'OptGraph')],
+                      kinds=[case.get('nkind1', 'stock'), case.get('nkind2', 'stock')])
     elif case.get('kind') == 'dag-triple':
         cl = case.get('classes') or ['OptGraph'] * 3
         g1, g2, g3 = (graph_from_snapshot(case[k], c) for k, c in zip(('g1', 'g2', 'g3'), cl))
